@@ -227,6 +227,9 @@ struct Shared {
     done: Vec<tokio::sync::watch::Sender<Option<Ms>>>,
     /// reply bytes per probe step
     replies: Mutex<DMap<usize, Vec<u8>>>,
+    /// per real node: bumped by Op::Drop. A pending bootstrapped() future borrows a handle, so
+    /// "the application drops every handle" includes dropping those futures: waiters watch this.
+    dropped: Vec<tokio::sync::watch::Sender<u64>>,
 }
 
 fn ih(b: &[u8; 20]) -> InfoHash {
@@ -381,6 +384,9 @@ impl Shared {
                 if let Some(slot) = self.nodes.lock().unwrap().get_mut(*node) {
                     *slot = None;
                 }
+                if let Some(tx) = self.dropped.get(*node) {
+                    tx.send_modify(|x| *x += 1);
+                }
                 self.net.api(step, ApiEv::NodeDrop { node: *node, crash: *crash });
             }
             Op::Search { node, ih: h, announce } => {
@@ -450,19 +456,38 @@ impl Shared {
             }
             Op::Bootstrapped { node } => {
                 self.net.api(step, ApiEv::BootCall { node: *node });
+                let mut gone = self.dropped[*node].subscribe();
                 let ok = match self.node(*node) {
-                    Some(d) => d.bootstrapped().await,
-                    None => false,
+                    Some(d) => {
+                        tokio::select! {
+                            biased;
+                            ok = d.bootstrapped() => Some(ok),
+                            _ = gone.changed() => None,
+                        }
+                    }
+                    None => Some(false),
                 };
-                self.net.api(step, ApiEv::BootDone { ok });
+                match ok {
+                    Some(ok) => self.net.api(step, ApiEv::BootDone { ok }),
+                    // the application dropped the node (and with it this pending future)
+                    None => self.net.api(step, ApiEv::Note("boot_cancelled".into())),
+                }
             }
             Op::BootstrappedX { node, cancel_after_ms } => {
                 self.net.api(step, ApiEv::BootCall { node: *node });
                 match self.node(*node) {
-                    Some(d) => match tokio::time::timeout(Duration::from_millis(*cancel_after_ms), d.bootstrapped()).await {
-                        Ok(ok) => self.net.api(step, ApiEv::BootDone { ok }),
-                        Err(_) => self.net.api(step, ApiEv::Note("boot_cancelled".into())),
-                    },
+                    Some(d) => {
+                        let mut gone = self.dropped[*node].subscribe();
+                        let r = tokio::select! {
+                            biased;
+                            r = tokio::time::timeout(Duration::from_millis(*cancel_after_ms), d.bootstrapped()) => r.ok(),
+                            _ = gone.changed() => None,
+                        };
+                        match r {
+                            Some(ok) => self.net.api(step, ApiEv::BootDone { ok }),
+                            None => self.net.api(step, ApiEv::Note("boot_cancelled".into())),
+                        }
+                    }
                     None => self.net.api(step, ApiEv::BootDone { ok: false }),
                 }
             }
@@ -617,6 +642,7 @@ pub async fn execute(sc: &Scenario) -> RunLog {
         probes: Mutex::new(DMap::default()),
         done,
         replies: Mutex::new(DMap::default()),
+        dropped: sc.reals.iter().map(|_| tokio::sync::watch::channel(0u64).0).collect(),
     });
 
     let mut handles = Vec::new();
